@@ -194,3 +194,31 @@ Definition check_case40 (k : case40) : bool :=
      reads) must be what the real store holds internally after the call *)
   inmem_same s1 (k40_after k) &&
   forallb (fun e => existsb (method_eqb (method_of (fst e))) (tool_methods (k40_tool k))) (k40_trace k).
+
+(* ---------- C40 on the etcd store: a broker-side history, then a published snapshot, then a
+   freshly opened EtcdStore (as cmd/mcp opens it) serves one tool call ---------- *)
+Record case40e := mkCase40e {
+  k40e_brokers : Z;
+  k40e_history : list op;              (* what the broker-side store did (first op: its initial snapshot) *)
+  k40e_pub : list (bytes * Z);         (* the snapshot published afterwards; the new store opens with it *)
+  k40e_tool : bytes;
+  k40e_trace : list (op * res);
+  k40e_keys : list bytes }.            (* real etcd keys (without the snapshot key) after the call *)
+
+(* a new EtcdStore over the same etcd: empty in-process tables, topics from the snapshot *)
+Definition reopen (s : etcd) (b : Z) (ts : list (bytes * Z)) : etcd :=
+  mkEtcd (mkInmem b ts [] [] [] []) (et_noff s) (et_cfg s) (et_pstate s) (et_groups s) (et_coff s).
+
+Fixpoint replay40e (s : etcd) (tr : list (op * res)) : etcd * bool :=
+  match tr with
+  | [] => (s, true)
+  | (o, r) :: tr' =>
+      let '(s', r') := et_step s o in
+      let '(s'', ok) := replay40e s' tr' in (s'', res_eqb r' r && ok)
+  end.
+
+Definition check_case40e (k : case40e) : bool :=
+  let s0 := reopen (fst (et_run (et_new (k40e_brokers k)) (k40e_history k))) (k40e_brokers k) (k40e_pub k) in
+  let '(s1, ok) := replay40e s0 (k40e_trace k) in
+  ok && perm_eqb bytes_eqb (et_keys s0) (k40e_keys k) && perm_eqb bytes_eqb (et_keys s1) (k40e_keys k) &&
+  forallb (fun e => existsb (method_eqb (method_of (fst e))) (tool_methods (k40e_tool k))) (k40e_trace k).
